@@ -168,4 +168,147 @@ theorem respG17_free_himp' (d : RespDesc) (v : RespVal) (hg : d.g17Fields = []) 
   rw [hg] at hin
   cases hin
 
+/-! ### What the macro sees does not depend on the codecs
+
+`erase` replaces every codec of a description by the one that rejects everything; what is left —
+method, authentication, history, and per field its name, kind, header constant and `Option`-ness —
+is what `#[request]` sees. The predicates that `Props/C16.real_endpoints_under_model` decides
+for the extracted descriptions are functions of the erased description, so they hold for the
+real endpoints whatever the codecs of their field types are. -/
+
+def ReqKind.erase : ReqKind → ReqKind
+  | .body _ => .body ⟨fun _ => none⟩
+  | .header n o _ => .header n o ⟨fun _ => none⟩
+  | .newtypeBody _ => .newtypeBody ⟨fun _ => none⟩
+  | .rawBody => .rawBody
+  | .path _ => .path ⟨fun _ => none⟩
+  | .query _ => .query ⟨fun _ => none⟩
+  | .queryAll _ => .queryAll ⟨fun _ => none⟩
+  | .flattenBody => .flattenBody
+
+def ReqField.erase (f : ReqField) : ReqField := ⟨f.name, f.kind.erase⟩
+
+def ReqDesc.erase (d : ReqDesc) : ReqDesc := { d with fields := d.fields.map ReqField.erase }
+
+theorem filterMap_erase_length {β γ : Type} (g : ReqField → Option β) (g' : ReqField → Option γ)
+    (h : ∀ f, (g f).isSome = (g' f.erase).isSome) :
+    ∀ l : List ReqField, (l.filterMap g).length = ((l.map ReqField.erase).filterMap g').length
+  | [] => rfl
+  | f :: l => by
+    have ih := filterMap_erase_length g g' h l
+    have hf := h f
+    simp only [List.map_cons, List.filterMap_cons]
+    cases hg : g f <;> cases hg' : g' f.erase <;> rw [hg, hg'] at hf <;> simp_all
+
+theorem filter_erase_length (p : ReqField → Bool) (h : ∀ f, p f = p f.erase) :
+    ∀ l : List ReqField, (l.filter p).length = ((l.map ReqField.erase).filter p).length
+  | [] => rfl
+  | f :: l => by
+    have ih := filter_erase_length p h l
+    simp only [List.map_cons, List.filter_cons, ← h f]
+    cases p f <;> simp [ih]
+
+theorem isEmpty_of_length_eq {α β : Type} {l : List α} {l' : List β} (h : l.length = l'.length) :
+    l.isEmpty = l'.isEmpty := by
+  cases l <;> cases l' <;> simp_all
+
+theorem erase_newtype (d : ReqDesc) : d.newtypeFields.length = d.erase.newtypeFields.length :=
+  filterMap_erase_length _ _ (fun f => by cases f with | mk n k => cases k <;> rfl) d.fields
+theorem erase_body (d : ReqDesc) : d.bodyFields.length = d.erase.bodyFields.length :=
+  filterMap_erase_length _ _ (fun f => by cases f with | mk n k => cases k <;> rfl) d.fields
+theorem erase_query (d : ReqDesc) : d.queryFields.length = d.erase.queryFields.length :=
+  filterMap_erase_length _ _ (fun f => by cases f with | mk n k => cases k <;> rfl) d.fields
+theorem erase_queryAll (d : ReqDesc) : d.queryAllFields.length = d.erase.queryAllFields.length :=
+  filterMap_erase_length _ _ (fun f => by cases f with | mk n k => cases k <;> rfl) d.fields
+theorem erase_raw (d : ReqDesc) : d.rawFields.length = d.erase.rawFields.length :=
+  filter_erase_length _ (fun f => by cases f with | mk n k => cases k <;> rfl) d.fields
+theorem erase_flatten (d : ReqDesc) : d.flattenFields.length = d.erase.flattenFields.length :=
+  filter_erase_length _ (fun f => by cases f with | mk n k => cases k <;> rfl) d.fields
+
+theorem filterMap_erase_eq {β : Type} (g : ReqField → Option β) (h : ∀ f, g f = g f.erase)
+    (l : List ReqField) : l.filterMap g = (l.map ReqField.erase).filterMap g := by
+  rw [List.filterMap_map]
+  congr 1
+  funext f
+  exact h f
+
+theorem erase_pathNames (l : List ReqField) :
+    l.filterMap (fun f : ReqField => f.asPath.map (fun _ => f.name))
+      = (l.map ReqField.erase).filterMap (fun f : ReqField => f.asPath.map (fun _ => f.name)) :=
+  filterMap_erase_eq _ (fun f => by cases f with | mk n k => cases k <;> rfl) l
+
+theorem erase_names (l : List ReqField) : l.map (·.name) = (l.map ReqField.erase).map (·.name) := by
+  simp [ReqField.erase]
+
+/-- The header fields of the erased description: same constants, same `Option`-ness. -/
+theorem erase_headers (l : List ReqField) :
+    (l.filterMap ReqField.asHeader).map (fun f => (f.header, f.optional))
+      = ((l.map ReqField.erase).filterMap ReqField.asHeader).map (fun f => (f.header, f.optional)) := by
+  rw [List.map_filterMap, List.map_filterMap]
+  exact filterMap_erase_eq _ (fun f => by cases f with | mk n k => cases k <;> rfl) l
+
+theorem erase_headerNames (l : List ReqField) :
+    (l.filterMap ReqField.asHeader).map (·.header)
+      = ((l.map ReqField.erase).filterMap ReqField.asHeader).map (·.header) := by
+  rw [List.map_filterMap, List.map_filterMap]
+  exact filterMap_erase_eq _ (fun f => by cases f with | mk n k => cases k <;> rfl) l
+
+theorem map_filter_of_map_eq {α β γ : Type} (key : α → γ) (key' : β → γ) (p : γ → Bool) (out : γ → Str) :
+    ∀ (l : List α) (l' : List β), l.map key = l'.map key' →
+      ((l.filter (fun x => p (key x))).map (fun x => out (key x)))
+        = ((l'.filter (fun x => p (key' x))).map (fun x => out (key' x)))
+  | [], [], _ => rfl
+  | [], _ :: _, h => by simp at h
+  | _ :: _, [], h => by simp at h
+  | a :: l, b :: l', h => by
+    simp only [List.map_cons, List.cons.injEq] at h
+    have ih := map_filter_of_map_eq key key' p out l l' h.2
+    simp only [List.filter_cons, h.1]
+    cases p (key' b) <;> simp [ih, h.1]
+
+/-- Every predicate on descriptions that the check decides for the real endpoints is a function
+of the erased description. -/
+theorem erase_invariant (d : ReqDesc) :
+    d.macroAccepts = d.erase.macroAccepts ∧ d.testsPass = d.erase.testsPass
+    ∧ d.inModel = d.erase.inModel ∧ d.g17Fields = d.erase.g17Fields
+    ∧ d.headerFields.map (·.header) = d.erase.headerFields.map (·.header)
+    ∧ d.history = d.erase.history := by
+  have h1 := erase_newtype d
+  have h2 := erase_body d
+  have h3 := erase_query d
+  have h4 := erase_queryAll d
+  have h5 := erase_raw d
+  have h6 := erase_flatten d
+  have e2 := isEmpty_of_length_eq h2
+  have e3 := isEmpty_of_length_eq h3
+  have e4 := isEmpty_of_length_eq h4
+  have e6 := isEmpty_of_length_eq h6
+  have e1 := isEmpty_of_length_eq h1
+  have e5 := isEmpty_of_length_eq h5
+  have hh := erase_headers d.fields
+  refine ⟨?_, ?_, ?_, ?_, ?_, rfl⟩
+  · unfold ReqDesc.macroAccepts ReqDesc.flattenOk ReqDesc.hasQueryAll ReqDesc.hasQueryFields
+      ReqDesc.hasFlatten
+    rw [h1, h4, h5, h6, e2, e3, e4, e6]
+  · unfold ReqDesc.testsPass ReqDesc.hasBodyFields ReqDesc.hasRawBody ReqDesc.hasFlatten
+    rw [e1, e2, e5, e6]
+    have hp := erase_pathNames d.fields
+    have hn := erase_names d.fields
+    have hf : d.erase.fields = d.fields.map ReqField.erase := rfl
+    have hhist : d.erase.history = d.history := rfl
+    have hm : d.erase.method = d.method := rfl
+    rw [hf, hhist, hm, ← hp, ← hn]
+  · unfold ReqDesc.inModel ReqDesc.hasFlatten
+    rw [e6]
+  · unfold ReqDesc.g17Fields ReqDesc.hasRawBody ReqDesc.hasBodyFields
+    rw [e1, e2, e5]
+    have hauth : d.erase.auth = d.auth := rfl
+    rw [hauth]
+    exact map_filter_of_map_eq (fun f : HeaderField => (f.header, f.optional))
+      (fun f : HeaderField => (f.header, f.optional))
+      (fun k => k.2 && ((k.1 = contentType && (!d.erase.rawFields.isEmpty || (!d.erase.bodyFields.isEmpty || !d.erase.newtypeFields.isEmpty)))
+        || (k.1 = authorization && d.auth != .serverSignatures)))
+      (fun k => k.1) d.headerFields d.erase.headerFields hh
+  · exact erase_headerNames d.fields
+
 end Ruma.Glue
